@@ -57,6 +57,10 @@ inductive Cmd
   | check (name : Nat)
   | pstart (interval cb : Nat)
   | pcancel (pid : Nat)
+  | prestart (pid interval cb : Nat)   -- if task `pid` is still running: cancel it and start a new task (rescheduling in a tick)
+  | block (d : Nat)                    -- the running callback takes `d` ticks: the clock advances, the loop does not run
+  | raise (keyError : Bool)            -- the running callback raises (KeyError / any other exception)
+  | endTry                             -- marker: end of the `try … except KeyError` that `run_now` has around the callback
 deriving DecidableEq, Repr
 
 inductive Obs
@@ -68,6 +72,9 @@ inductive Obs
   | pstarted (pid interval t0 : Nat)   -- ghost: `schedule_interval`
   | tick (pid n t : Nat)               -- n-th callback of periodic task `pid` at `t`
   | exhausted                          -- step budget used up (harness and model cut the same way)
+  | blocked (d : Nat)                  -- a callback blocked the loop for `d` ticks
+  | raised (keyError : Bool)           -- a callback raised
+  | escaped                            -- … and nothing on the call stack caught it: it reaches the loop / the caller
 deriving DecidableEq, Repr
 
 structure St where
@@ -76,6 +83,7 @@ structure St where
   delays : List Entry := []
   live : List Handle := []
   pers : List Per := []
+  slack : Nat := 0     -- ghost: for how long callbacks have blocked the loop since it was last idle
 deriving Repr
 
 def init : St := {}
@@ -101,6 +109,14 @@ def doClear (s : St) : St × List Obs :=
   ({ s with delays := [], live := s.live.filter (fun h => !(s.delays.any (fun e => e.hid == h.hid))) },
    s.delays.map (fun e => .cancel e.hid))
 
+/-- `ClockBase.schedule_interval` -/
+def doPStart (s : St) (iv cb : Nat) : St × List Obs :=
+  ({ s with pers := s.pers ++ [⟨s.pers.length, cb, iv, s.now, 0, s.now, false⟩] }, [.pstarted s.pers.length iv s.now])
+
+/-- `ClockBase.unschedule(task)` -/
+def doPCancel (s : St) (pid : Nat) : St :=
+  { s with pers := s.pers.map (fun p => if p.pid == pid then { p with canceled := true } else p) }
+
 /-- one command: new state, observations, and the commands of a synchronously called callback (pushed on the agenda) -/
 def stepCmd (P : Nat → List Cmd) (s : St) : Cmd → St × List Obs × List Cmd
   | .add ms n cb a => let r := doAdd s ms n cb a; (r.1, r.2, [])
@@ -117,13 +133,30 @@ def stepCmd (P : Nat → List Cmd) (s : St) : Cmd → St × List Obs × List Cmd
   | .runNow n =>
     match s.entry? n with
     | none => (s, [], [])
-    | some e => let r := popName s n; (r.1, r.2 ++ [.ranNow e s.now], P e.cb)
+    | some e => let r := popName s n; (r.1, r.2 ++ [.ranNow e s.now], P e.cb ++ [.endTry])
   | .check n => (s, [.checked n (s.delays.any (fun e => e.name == n))], [])
-  | .pstart iv cb =>
-    ({ s with pers := s.pers ++ [⟨s.pers.length, cb, iv, s.now, 0, s.now, false⟩] },
-     [.pstarted s.pers.length iv s.now], [])
-  | .pcancel pid =>
-    ({ s with pers := s.pers.map (fun p => if p.pid == pid then { p with canceled := true } else p) }, [], [])
+  | .pstart iv cb => let r := doPStart s iv cb; (r.1, r.2, [])
+  | .pcancel pid => (doPCancel s pid, [], [])
+  | .prestart pid iv cb =>
+    if s.pers.any (fun p => p.pid == pid && !p.canceled) then
+      let r := doPStart (doPCancel s pid) iv cb; (r.1, r.2, [])
+    else (s, [], [])
+  | .block d => ({ s with now := s.now + d, slack := s.slack + d }, [.blocked d], [])
+  | .raise k => (s, [.raised k], [])
+  | .endTry => (s, [], [])
+
+/-- unwinding: a KeyError is caught by the innermost enclosing `run_now` (the rest of the agenda up to and including its
+`endTry` marker is dropped); `none` = no enclosing `run_now` -/
+def dropTry : List Cmd → Option (List Cmd)
+  | [] => none
+  | .endTry :: rest => some rest
+  | _ :: rest => dropTry rest
+
+/-- what remains to be executed after command `c`: everything, except after a `raise` -/
+def cont : Cmd → List Cmd → Option (List Cmd)
+  | .raise true, rest => dropTry rest
+  | .raise false, _ => none
+  | _, rest => some rest
 
 /-- run an agenda of commands; a synchronously called callback's program goes in front (call stack flattened) -/
 def exec (P : Nat → List Cmd) : Nat → St → List Cmd → St × List Obs
@@ -131,8 +164,11 @@ def exec (P : Nat → List Cmd) : Nat → St → List Cmd → St × List Obs
   | 0, s, _ :: _ => (s, [.exhausted])
   | f + 1, s, c :: rest =>
     let r := stepCmd P s c
-    let r2 := exec P f r.1 (r.2.2 ++ rest)
-    (r2.1, r.2.1 ++ r2.2)
+    match cont c rest with
+    | none => (r.1, r.2.1 ++ [.escaped])
+    | some rest' =>
+      let r2 := exec P f r.1 (r.2.2 ++ rest')
+      (r2.1, r.2.1 ++ r2.2)
 
 /-- step budget per top-level operation (the harness callbacks stop issuing commands at the same count) -/
 def fuel : Nat := 48
@@ -150,7 +186,7 @@ def step (P : Nat → List Cmd) (s : St) : Op → Option (St × List Obs)
   | .cmd c => some (exec P fuel s [c])
   | .to t =>
     if s.now ≤ t ∧ s.live.all (fun h => t ≤ h.due) ∧ s.pers.all (fun p => p.canceled || t ≤ p.due)
-    then some ({ s with now := t }, []) else none
+    then some ({ s with now := t, slack := 0 }, []) else none
   | .fire hid =>
     match s.live.find? (fun h => h.hid == hid) with
     | none => none
@@ -189,18 +225,22 @@ def run (P : Nat → List Cmd) : St → List Op → Option (St × List Obs)
 def parseInt (t : String) : Option Int :=
   if t.startsWith "-" then (t.drop 1).toNat?.map (fun n => - (n : Int)) else t.toNat?.map (fun n => (n : Int))
 
+/-- a delay in ticks as the loop sees it: a negative delay is due at once (`call_later` with a negative delay) -/
+def parseMs (t : String) : Option Nat := (parseInt t).map Int.toNat
+
 def parseCmd : List String → Option Cmd
-  | ["add", ms, n, cb, a] => do some (.add (← ms.toNat?) (← n.toNat?) (← cb.toNat?) (← parseInt a))
-  | ["addif", ms, n, cb, a] => do some (.addIf (← ms.toNat?) (← n.toNat?) (← cb.toNat?) (← parseInt a))
-  | ["reset", ms, n, cb, a] => do some (.reset (← ms.toNat?) (← n.toNat?) (← cb.toNat?) (← parseInt a))
+  | ["add", ms, n, cb, a] => do some (.add (← parseMs ms) (← n.toNat?) (← cb.toNat?) (← parseInt a))
+  | ["addif", ms, n, cb, a] => do some (.addIf (← parseMs ms) (← n.toNat?) (← cb.toNat?) (← parseInt a))
+  | ["reset", ms, n, cb, a] => do some (.reset (← parseMs ms) (← n.toNat?) (← cb.toNat?) (← parseInt a))
   | ["rm", n] => do some (.remove (← n.toNat?))
   | ["clear"] => some .clear
   | ["runnow", n] => do some (.runNow (← n.toNat?))
   | ["check", n] => do some (.check (← n.toNat?))
-  | ["pstart", iv, cb] => do
-    let i ← iv.toNat?
-    if i == 0 then none else some (.pstart i (← cb.toNat?))
+  | ["pstart", iv, cb] => do some (.pstart (← iv.toNat?) (← cb.toNat?))
   | ["pcancel", p] => do some (.pcancel (← p.toNat?))
+  | ["prestart", p, iv, cb] => do some (.prestart (← p.toNat?) (← iv.toNat?) (← cb.toNat?))
+  | ["block", d] => do some (.block (← d.toNat?))
+  | ["raise", k] => do some (.raise ((← k.toNat?) == 0))
   | _ => none
 
 def parseProg : List String → Option (List Cmd)
@@ -219,6 +259,9 @@ def showObs : Obs → Option String
   | .checked n b => some s!"C {n} {if b then 1 else 0}"
   | .tick pid n t => some s!"T {pid} {n} {t}"
   | .exhausted => some "X"
+  | .blocked d => some s!"B {d}"
+  | .raised k => some s!"E {if k then 0 else 1}"
+  | .escaped => some "U"
   | _ => none
 
 def showAll (os : List Obs) : String :=
@@ -263,6 +306,7 @@ def driverStep (d : DSt) (line : String) : DSt × String :=
     match p.toNat? with
     | some p => answer d (step d.P d.s (.pfire p))
     | none => (d, "bad-op")
+  | ["now"] => (d, s!"{d.s.now}")
   | ["pending"] =>
     -- names with a live handle, and running periodic tasks (end-of-case comparison)
     (d, "P " ++ " ".intercalate (d.s.live.map (fun h => s!"{h.name}@{h.due}")) ++ " | " ++
